@@ -21,7 +21,7 @@ def register(reg):
                  ("in_range", "implies(n >= 2, 1 <= result and result <= n - 1)"),
                  ("one_unit_goes_to_the_end", "implies(n >= 2 and snapshots == 1, result == n - 1)"),
                  ("enough_units_single_steps", "implies(n >= 2 and snapshots >= n - 1, result == 1)")],
-        frame=[], props=("C01", "C02", "C03", "C05", "C12", "C13", "C17"),
+        frame=[], props=("C01", "C02", "C03", "C12", "C17"),
         exc_props={"ValueError": ("C17",)},
         loops=[LoopSpec("b_s_tm1 >= n or n > b_s_t", [
             ("domain", "n >= 4 and 2 <= snapshots and snapshots <= n - 2"),
